@@ -25,18 +25,38 @@ def isdigit(c):
     return z.in_range_c(c, 48, 57)
 
 
+_case_cache = {}
+
+
+def _case_c(c, up):
+    k = (c.get_id(), up)
+    r = _case_cache.get(k)
+    if r is not None:
+        return r[1]
+    if up:
+        cond = z.Or(z.in_range_c(c, 97, 122), z.And(z.in_range_c(c, 0xE0, 0xFE), z.Not(z.eq_c(c, 0xF7))))
+        e = z._fast_ite_bv(cond, z._BVRef(z3.Z3_mk_bvsub(z._CREF, c.ast, z.bv_c(32).ast), z._CTX), c)
+    else:
+        cond = z.Or(z.in_range_c(c, 65, 90), z.And(z.in_range_c(c, 0xC0, 0xDE), z.Not(z.eq_c(c, 0xD7))))
+        e = z._fast_ite_bv(cond, z._BVRef(z3.Z3_mk_bvadd(z._CREF, c.ast, z.bv_c(32).ast), z._CTX), c)
+    if len(_case_cache) > 100000:
+        _case_cache.clear()
+    _case_cache[k] = (c, e)
+    return e
+
+
 def upper_c(c):
     if not is_sym(c):
-        return ord(chr(c).upper()) if len(chr(c).upper()) == 1 and ord(chr(c).upper()) < 256 else c
-    lo = z3.Or(z3.And(z3.UGE(c, 97), z3.ULE(c, 122)), z3.And(z3.UGE(c, 0xE0), z3.ULE(c, 0xFE), c != 0xF7))
-    return z3.If(lo, c - 32, c)
+        u = chr(c).upper()
+        return ord(u) if len(u) == 1 and ord(u) < 256 else c
+    return _case_c(c, True)
 
 
 def lower_c(c):
     if not is_sym(c):
-        return ord(chr(c).lower()) if len(chr(c).lower()) == 1 and ord(chr(c).lower()) < 256 else c
-    up = z3.Or(z3.And(z3.UGE(c, 65), z3.ULE(c, 90)), z3.And(z3.UGE(c, 0xC0), z3.ULE(c, 0xDE), c != 0xD7))
-    return z3.If(up, c + 32, c)
+        u = chr(c).lower()
+        return ord(u) if len(u) == 1 and ord(u) < 256 else c
+    return _case_c(c, False)
 
 
 # ------------------------------------------------------------------------------- SymBool
